@@ -452,6 +452,20 @@ def main():
             print('  obligation %s/%s/%s failed: %s' % (unit, f['fn'], f['kind'], f['msg']))
         sys.exit(1)
     if undecided:
+        # the contracts could not be decided on this tree (e.g. the extraction met code outside its model).  The directed
+        # concrete search is still run against the real code: a reproduced failure is reported as a violation with its
+        # replay (deciding step = replay of a concrete input, labelled as such); otherwise the run stays undecided.
+        c = vcex.find_counterexample(pid, units[0], dict(fn='*undecided*'), seed)
+        if c and c.get('confirmed_on_real_code'):
+            h = hashlib.sha256(json.dumps(c['scenario'], sort_keys=True).encode()).hexdigest()[:10]
+            path = os.path.join(REPLAYS, '%s-undecided-%s.json' % (pid, h))
+            json.dump(dict(property=pid, unit=None, obligation='(contracts undecided on this tree: %s) — violation found by the directed concrete search' % '; '.join(u[:200] for u in undecided[:3]),
+                           function=None, backend='replay of concrete input against the real crate', verifier_output='\n'.join(undecided)[:6000], counterexample=c), open(path, 'w'), indent=1)
+            print('VIOLATION property=%s replay=%s' % (pid, path))
+            print('  contracts undecided (%s); the directed concrete search reproduced a failure on the real code: %s' % (undecided[0][:160], c.get('replay_output', '')[:300]))
+            ev['violations'] = 1
+            json.dump(ev, open(os.path.join(EVID, pid + '.json'), 'w'), indent=1)
+            sys.exit(1)
         print('UNDECIDED property=%s' % pid)
         for u in undecided:
             print('  ' + u[:3000])
